@@ -2238,7 +2238,7 @@ package exec
 //@   pure
 //@   uses reflectspec
 //@   ensures rvValid(r) == (i != nil) && !rvAddr(r) && !rvRO(r)
-//@   ensures i != nil ==> rvType(r) == dynType(i) && rvNil(r) == dynNil(i)
+//@   ensures i != nil ==> rvType(r) == dynType(i) && rvNil(r) == dynNil(i) && rvIface(r) == i
 
 //@ extern reflect.TypeOf(i) (r)
 //@   pure
@@ -2392,13 +2392,29 @@ package exec
 //@   uses reflectspec nodeset
 //@   requires (isVSet(result) ==> nodes(vset(result))) && (forall k Int :: 0 <= k && k < len(settings) ==> settings[k] != nil)
 
+// createValue: the value handed to setField is a fresh reflect.Value of exactly the requested kind holding the XPath
+// conversion of the result: string() for String, boolean() for Bool, number() converted by Go's conversion to the
+// field's numeric type otherwise (C19: "string fields get the string value, bool fields the boolean value, integer/
+// unsigned/float fields the number value converted to the field type").
 //@ func createValue(kind, result) (r, ok)
 //@   property C19 C15
-//@   trusted
-//@   uses reflectspec
+//@   uses reflectspec intconv values
 //@   requires result != nil
 //@   ensures ok ==> rvValid(r) && !rvRO(r) && rtKind(rvType(r)) != 18 && rtKind(rvType(r)) != 20 && rtKind(rvType(r)) != 22
-//@   ensures !ok ==> kind != 24 && !(1 <= kind && kind <= 14)
+//@   ensures ok == (kind == 24 || (1 <= kind && kind <= 14 && kind != 12))           @every-basic-kind-but-uintptr-is-filled
+//@   ensures ok ==> rtKind(rvType(r)) == kind                                         @value-has-the-requested-kind
+//@   ensures kind == 24 ==> dynStr(rvIface(r)) == toStr(result)                       @string-value
+//@   ensures kind == 1 ==> dynBool(rvIface(r)) == toBool(result)                      @boolean-value
+//@   ensures kind == 14 ==> dynF64(rvIface(r)) == toNum(result)                       @number-value
+//@   ensures kind == 2 || kind == 6 ==> dynInt(rvIface(r)) == f2i(toNum(result))      @number-converted-to-int
+//@   ensures kind == 3 ==> dynInt(rvIface(r)) == f2i_int8(toNum(result))              @number-converted-to-int8
+//@   ensures kind == 4 ==> dynInt(rvIface(r)) == f2i_int16(toNum(result))             @number-converted-to-int16
+//@   ensures kind == 5 ==> dynInt(rvIface(r)) == f2i_int32(toNum(result))             @number-converted-to-int32
+//@   ensures kind == 7 ==> dynInt(rvIface(r)) == f2i_uint(toNum(result))              @number-converted-to-uint
+//@   ensures kind == 8 ==> dynInt(rvIface(r)) == f2i_uint8(toNum(result))             @number-converted-to-uint8
+//@   ensures kind == 9 ==> dynInt(rvIface(r)) == f2i_uint16(toNum(result))            @number-converted-to-uint16
+//@   ensures kind == 10 ==> dynInt(rvIface(r)) == f2i_uint32(toNum(result))           @number-converted-to-uint32
+//@   ensures kind == 11 ==> dynInt(rvIface(r)) == f2i_uint64(toNum(result))           @number-converted-to-uint64
 
 //@ func setField(name, field, val, checkSlice) (err)
 //@   property C19 C15
